@@ -326,3 +326,15 @@ Proof.
   intros Hs Ht. unfold ti_here. rewrite Hs, Ht. destruct (bin_ok c _); [|reflexivity].
   f_equal. f_equal. cbn. ring.
 Qed.
+
+(* energy_difference of a harmonic restraint with fixed parameters on one non-periodic variable: the difference of the two
+   closed forms *)
+Lemma rediff_harmonic_closed (c : @rcfg R) (s : @rstate R) (v : @var R) (x ce k' ce' : R) :
+  c_kind c = Harmonic -> c_vars c = [v] -> s_centers s = [ce] -> v_width v <> 0%R -> v_periodic v = false ->
+  rediff Rops c s [x] (Some k') (Some [ce']) =
+  (k' / (2 * v_width v ^ 2) * (x - ce') ^ 2 - s_k s / (2 * v_width v ^ 2) * (x - ce) ^ 2)%R.
+Proof.
+  intros Hk Hv Hc Hw Hp. unfold rediff, terms. rewrite Hk, Hv, Hc. cbn [map3 map pot3 fst s_k s_centers sumT fold_left].
+  destruct (harmonic_nonperiodic k' v x ce' Hw Hp) as [E1 _]. destruct (harmonic_nonperiodic (s_k s) v x ce Hw Hp) as [E2 _].
+  rewrite E1, E2. cbn [nadd nsub n0 Rops]. ring.
+Qed.
